@@ -133,7 +133,19 @@ func runC20Sema(c *Ctx) {
 		}
 	})
 	construct := "(*concurrentProcess).run$1|Acquire -> run -> Release -> callback"
+	deferred := false
+	var relNow []ssa.CallInstruction
+	for _, r := range rel {
+		if _, isDefer := r.(*ssa.Defer); isDefer {
+			deferred = true
+		} else {
+			relNow = append(relNow, r)
+		}
+	}
+	rel = relNow
 	switch {
+	case deferred:
+		c.bad(construct, body.Pos(), "the semaphore slot is released by a deferred call, i.e. only after the callback has run: the callback (which takes the rule's mutex and parses output) is counted as a running process")
 	case len(acq) != 1 || len(rel) != 1 || len(runs) != 1 || len(cbs) != 1:
 		c.bad(construct, body.Pos(), fmt.Sprintf("expected exactly one Acquire, one tool run, one Release and one callback in the goroutine, found %d/%d/%d/%d", len(acq), len(runs), len(rel), len(cbs)))
 	case !(dom(acq[0], runs[0]) && dom(runs[0], rel[0]) && dom(rel[0], cbs[0])):
